@@ -112,6 +112,11 @@ def gen_values(ctx, shapes):
     # C. special scalars and empty containers
     vals += [[True, False], [1, True, 2.5, False], {'flags': [True, True, False] * 30}, [[], {}, [[]], [{}], {'a': []}][0],
              [], {}, [[]], [{}], {'a': []}, {'a': {}, 'b': [[], {}]}, [0, -1, 1.0, -2.5, 1e22, 1e-7, 1e+20, 2.5e-10, 7e+100, -3e+30, 2.0, 100.0, True, False, None, ''],
+             # a value next to the string that reads like it; floats with 16-17 significant digits and very small ones
+             [1, '1', '404', 404, None, 'None', True, 'True', 2.5, '2.5', [], '[]', {}, '{}', 'null', 'true'],
+             {'a': [0, '0', 0.0, '0.0', False, 'False']}, [1, 1.0, True, '1.0'],
+             [0.1 + 0.2, 1 / 3, 3.141592653589793, 1e-13, 2.220446049250313e-16, 123456789.12345679, -0.30000000000000004],
+             {'pi': 3.141592653589793, 'eps': 2.220446049250313e-16, 'third': 1 / 3, 'l': [1e-13] * 40},
              {'€uro': 'é', 'Z': 1, 'a': 2, 'B': 3, 'aa': 4, '': 5, ' ': 6}, [[1, [2, [3, [4, [5]]]]]], 'just a string', 12, None]
     # D. TLC-enumerated shapes, scaled
     pads = (1, 60, 190) if ctx.quick else (1, 30, 60, 95, 190)
